@@ -60,6 +60,15 @@ pub fn call<R>(f: impl FnOnce() -> R) -> Result<R, Panicked> {
     }
 }
 
+/// Source file of a panic site without the line number (stable under edits), e.g. `src/app.rs`.
+pub fn site_file(site: &str) -> String {
+    let s = short_site(site);
+    match s.rfind(':') {
+        Some(i) => s[..i].to_string(),
+        None => s,
+    }
+}
+
 /// Normalised panic site: path relative to the repository, e.g. `src/app.rs:67`.
 pub fn short_site(site: &str) -> String {
     match site.rfind("/src/") {
@@ -375,6 +384,8 @@ pub fn with_writer<R>(cfg: &Cfg, how: How, f: impl FnOnce(&DynW) -> R) -> R {
 
 #[derive(Debug, PartialEq, Eq)]
 pub enum WOut {
+    /// only produced by `build_bytes`: write_into returned a size other than calculate_size
+    WrongSize { announced: usize, written: usize },
     Ok(usize),
     Err(RtcpWriteError),
     Panic(Panicked),
@@ -384,14 +395,16 @@ impl WOut {
     pub fn class(&self) -> String {
         match self {
             WOut::Ok(_) => "ok".into(),
+            WOut::WrongSize { .. } => "wrong-size".into(),
             WOut::Err(RtcpWriteError::OutputTooSmall(_)) => "err:OutputTooSmall".into(),
             WOut::Err(e) => format!("err:{}", variant_name(&format!("{e:?}"))),
-            WOut::Panic(p) => format!("panic@{}", short_site(&p.site)),
+            WOut::Panic(p) => format!("panic@{}", site_file(&p.site)),
         }
     }
     pub fn render(&self) -> String {
         match self {
             WOut::Ok(n) => format!("Ok({n})"),
+            WOut::WrongSize { announced, written } => format!("Ok({written}) although calculate_size() == Ok({announced})"),
             WOut::Err(e) => format!("Err({e:?})"),
             WOut::Panic(p) => format!("panic at {}: {}", short_site(&p.site), p.msg),
         }
@@ -429,6 +442,7 @@ pub fn build_bytes(cfg: &Cfg, how: How) -> Result<Vec<u8>, WOut> {
             let mut buf = vec![0u8; n];
             match write(w, &mut buf) {
                 WOut::Ok(m) if m == n => Ok(buf),
+                WOut::Ok(m) => Err(WOut::WrongSize { announced: n, written: m }),
                 other => Err(other),
             }
         }
